@@ -160,7 +160,7 @@ _ALL = {
         technique="fact walker, path enumeration, dtype-provenance classification, dispatch folding",
     ),
     "C10": dict(
-        want=["K1@ema", "E1", "E2", "E3", "A2", "K3@ema", "M7", "E4", "E5", "E6", "E7", "P24", "K7", "P25", "E8"],
+        want=["K1@ema", "E1", "E2", "E3", "A2", "K3@ema", "M7", "E4", "E5", "E6", "E7", "P24", "K7", "P25", "E8", "E9"],
         explanation=("Decides the periphery of the EMA, not the closed form: null-key guard in the grouped kernels (K1); "
                      "invalid rows read the group's own carried value (E2); the halflife->alpha conversion is the same "
                      "function of the raw parameter in both entry points (E1); the alignment decorator names real "
@@ -168,7 +168,7 @@ _ALL = {
                      ' Also: the time-weighted kernel advances the clock exactly where it decays (E3, both directions); the alpha kernels multiply the running state by beta exactly once on every row path (E4); row-aligned inputs are re-ordered by one indexer (M7); on every valid-row path of the four adjusted kernels out = (x + R)/(1 + W) followed by R += x and W += 1 (E5).'
                      ' ema / ema_grouped dispatch only to the kernels of their own family (E6); the per-group clock of the timed kernel is an integer array (E7); integer views of timestamps are taken only after an explicit unit normalisation and zones are never dropped with tz_localize(None) (P24).'
                      ' The grouped EMA kernels receive boolean masks only (K7).'
-                     ' ema(index_by_groups=True) repeats the group codes with counts in label order (P25); the codes handed to the kernel are the grouping\'s own codes, never one level of an index (E8).'),
+                     ' ema(index_by_groups=True) repeats the group codes with counts in label order (P25); the codes handed to the kernel are the grouping\'s own codes, never one level of an index (E8); the integer clock of the timed kernels is in nanoseconds like the integer half-life (E9).'),
         not_decided=["the closed form, alpha/beta arithmetic, time decay, equality of grouped and ungrouped series"],
         technique="fact walker; expression normal-form comparison; decorator-name rule",
     ),
@@ -186,14 +186,14 @@ _ALL = {
         technique="path rules over _apply_gb_reduction / __init__",
     ),
     "C12": dict(
-        want=["P1", "T2", "T3", "K5", "P10", "K4b", "P12", "F1b", "P7b", "M7", "P17", "D7c", "M9", "P24", "O1", "P28", "P26b", "T5", "M1", "M2"],
+        want=["P1", "T2", "T3", "K5", "P10", "K4b", "P12", "F1b", "P7b", "M7", "P17", "D7c", "M9", "P24", "O1", "P28", "P26b", "T5", "M1", "M2", "D10"],
         explanation=("Decides the dtype/exactness clauses: temporal cast<->restore pairing on all paths (P1); selection "
                      "reducers never do arithmetic on values (T2-L4); accumulator dtype table (T3); dtype provenance in "
                      "rolling selection paths (K5); unit-preserving restoration (P10)."
                      ' Also: identifier widths (K4b); polars NaT preservation (P12); RangeIndex step (F1b); container-independent label order (P7b); one permutation (M7); value columns are never stacked into one array (P17).'
                      ' The group sums are cast to float64 before they are squared in var (D7c); merge target dtype per column (M9); temporal integer views (P24); no operation writes a caller-owned container (O1).'
                      ' No .mask/.where on converted results (P28); temporal means through pandas objects (P26b).'
-                     " Temporal int64 views stay integers up to the restoring cast (T5); the merge of per-chunk partial results, which chunked containers and the threaded path go through, is the reducer's own (M1, M2)."),
+                     " Temporal int64 views stay integers up to the restoring cast (T5); the merge of per-chunk partial results, which chunked containers and the threaded path go through, is the reducer's own (M1, M2); chunked values reach the chunk dispatcher in the container type it recognises (D10)."),
         not_decided=["equivalence of containers (third-party conversions)", "integer-sum wrap beyond the accumulator dtype table"],
         technique="path pairing; table laws; dtype provenance",
     ),
